@@ -876,6 +876,12 @@ func c07Run(c *fw.Ctx, i int) {
 		case "g711u":
 			at = 0x91
 		}
+		// PES timestamps are 33 bits wide: in a third of the cases both tracks cross 2^32 a few
+		// frames into the stream (every 13 h on a camera that has been up for long)
+		var psOff uint64
+		if (i/5)%3 == 1 && len(src.vTicks) > 12 {
+			psOff = (1 << 32) - src.vTicks[10] - 1800
+		}
 		seq := uint16(r.Intn(65536))
 		// an access unit may be carried in several PES packets of which only the first has a PTS
 		// (cameras send SPS, PPS and the slice in separate PES packets)
@@ -883,6 +889,9 @@ func c07Run(c *fw.Ctx, i int) {
 		threeByte := (i/12)%2 == 1 // some NAL units delimited by 3-byte start codes
 		if threeByte {
 			jd.ingest = "ps-3byte-startcode"
+		}
+		if psOff != 0 {
+			jd.ingest += "-pts-across-2^32"
 		}
 		sendPs := func(ps []byte, ts uint32) bool {
 			for off := 0; off < len(ps); {
@@ -912,7 +921,7 @@ func c07Run(c *fw.Ctx, i int) {
 		for _, f := range src.es.Frames {
 			var ps []byte
 			if f.Video {
-				ticks := src.vTicks[vi]
+				ticks := src.vTicks[vi] + psOff
 				ps = ref.PsPackHeader(ticks)
 				if f.Key && (variant&1 == 0 || !psmSent) {
 					if variant&2 == 0 {
@@ -946,7 +955,7 @@ func c07Run(c *fw.Ctx, i int) {
 				vi++
 			} else {
 				// audio on the 90 kHz PS clock
-				ticks := uint64(float64(src.aTicks[ai]) * 90000 / float64(src.aClock))
+				ticks := uint64(float64(src.aTicks[ai])*90000/float64(src.aClock)) + psOff
 				ps = ref.PsPackHeader(ticks)
 				p := f.Audio
 				if sp.ACodec == "aac" {
